@@ -391,6 +391,24 @@ fn is_wordy(s: &str) -> bool {
     w(f) || w(l)
 }
 
+const TYPE_WORDS: [&str; 13] = [
+    "bool", "int", "uint", "float", "double", "string", "bytes", "type", "timestamp", "duration", "null_type", "dyn", "_",
+];
+
+fn first_word(e: &E) -> Option<String> {
+    match e {
+        E::Var(n) | E::Call(n, _) => Some(n.clone()),
+        E::Lit(v) => crate::vals::spell(v).map(|s| s.chars().take_while(|c| c.is_ascii_alphanumeric() || *c == '_').collect()),
+        E::Raw(s) => Some(s.chars().take_while(|c| c.is_ascii_alphanumeric() || *c == '_').collect()),
+        E::Bin(_, a, _) | E::Tern(a, _, _) | E::Index(a, _) | E::Field(a, _) | E::Method(a, _, _) => first_word(a),
+        _ => None,
+    }
+}
+
+fn pattern_needs_parens(e: &E) -> bool {
+    first_word(e).map(|w| TYPE_WORDS.contains(&w.as_str())).unwrap_or(false)
+}
+
 /// `1.f` would lex as the double `1.` followed by `f`: numeric receivers need parentheses
 fn numeric_atom(e: &E) -> bool {
     match e {
@@ -642,7 +660,14 @@ impl<'a> R<'a> {
                             if !o.is_empty() {
                                 self.tok(o);
                             }
-                            self.expr(pe, 1, false);
+                            // `case int:` / `case timestamp(..):` / `case _:` would be read as a
+                            // type or wildcard pattern: such operands are parenthesised
+                            if o.is_empty() && pattern_needs_parens(pe) {
+                                let p = E::Paren(Box::new(pe.clone()));
+                                self.expr(&p, 1, false);
+                            } else {
+                                self.expr(pe, 1, false);
+                            }
                         }
                     }
                     self.close(ps);
